@@ -3649,6 +3649,17 @@ void space_text()
                           __func__, __LINE__, pc->Text(), next->Text());
                   pc->SetFlagBits(PCF_FORCE_SPACE);
                }
+               else if (  pc->GetStr()[pc->Len() - 1] == '/'
+                       && (  next->GetStr()[0] == '*'
+                          || next->GetStr()[0] == '/')
+                       && !pc->IsComment()
+                       && !next->IsComment())
+               {
+                  // 'a / *p' must not become 'a /*p': that opens a comment
+                  LOG_FMT(LSPACE, "%s(%d): would open a comment: pc->Text() '%s', next->Text() '%s'\n",
+                          __func__, __LINE__, pc->Text(), next->Text());
+                  pc->SetFlagBits(PCF_FORCE_SPACE);
+               }
                // TODO:  what is the meaning of 4
                else if (  !kw1
                        && !kw2
